@@ -63,6 +63,8 @@ pub struct RefState {
     /// so ownership of these buffers is not predicted
     pub grad_buffers: Vec<usize>,
     no_dirs: bool,
+    /// tangent entries held by all nodes so far (memory guard, see `eval`)
+    pub tangent_entries: usize,
 }
 
 /// exact mode: integers only (see `ir::is_dyadic`)
@@ -72,7 +74,7 @@ pub fn is_exact_value(v: f64) -> bool {
 
 impl RefState {
     pub fn new(dir_budget: usize) -> RefState {
-        RefState { nodes: Vec::new(), handles: Vec::new(), ndirs: 0, dir_budget, next_buffer: 0, grad_buffers: vec![], no_dirs: false }
+        RefState { nodes: Vec::new(), handles: Vec::new(), ndirs: 0, dir_budget, next_buffer: 0, grad_buffers: vec![], no_dirs: false, tangent_entries: 0 }
     }
     pub fn handle(&self, h: usize) -> &Handle {
         self.handles[h].as_ref().expect("dead handle")
@@ -111,6 +113,7 @@ impl RefState {
             self.next_buffer += 1;
             self.next_buffer
         });
+        self.tangent_entries += t.vals.iter().map(|v| v.d.len()).sum::<usize>();
         self.nodes.push(Node { t, dir0, edges, op, grad: GradSlot::None, buffer, exact });
         self.nodes.len() - 1
     }
@@ -137,6 +140,18 @@ impl RefState {
 
     /// Evaluate an operation on handles without recording anything.
     pub fn eval(&self, op: &OpKind, args: &[usize]) -> R<T> {
+        let t = self.eval_unbounded(op, args)?;
+        // memory guard: a result whose elements each depend on thousands of leaf elements (softmax, matmul, sums over
+        // large arrays) carries that many tangent entries per element; programs whose reference would need more than
+        // ~100 MB are outside what this model evaluates (the caller discards them / does not generate them)
+        let n: usize = t.vals.iter().map(|v| v.d.len()).sum();
+        if n > 1_500_000 || self.tangent_entries + n > 4_000_000 {
+            return Err(RefErr::OutOfDomain("the reference's tangents for this program exceed the memory budget".into()));
+        }
+        Ok(t)
+    }
+
+    fn eval_unbounded(&self, op: &OpKind, args: &[usize]) -> R<T> {
         use OpKind::*;
         if args.len() != op.arity() {
             return Err(RefErr::OutOfDomain("arity".into()));
